@@ -165,7 +165,7 @@ def run(ck, replay=None):
     rng = random.Random(ck.seed)
     sujobs = [{'id': j['id'], 'src': j['src']} for j in jobs['nest']]
     rng.shuffle(sujobs)
-    SU.run_binding(ck, sujobs[:(500 if ck.tier == 'quick' else 100000)], perturb=ck.seed * 100 + 7, tag='su')
+    SU.run_binding(ck, sujobs[:(500 if ck.tier == 'quick' else 8000)], perturb=ck.seed * 100 + 7, tag='su')
     ck.cov['programs_agreeing_by_family'] = fam
     ck.cov['distinct_nontrivial'] = len(nontriv)
     ck.cov['exhaustive'] = True
